@@ -179,15 +179,15 @@ Qed.
 
 (* a lattice point exactly on the ideal segment is a pixel of the line (lines that do not go up) *)
 Lemma line_exact_point l q :
-  0 <= ldy l -> (ldy l = 0 -> 0 <= ldx l) ->
+  0 <= ldy l ->
+  (ldy l = 0 -> 0 <= ldx l /\ px (l_start l) <= px q <= px (l_end l)) ->
   cross_to l q = 0 ->
   py (l_start l) <= py q <= py (l_end l) ->
-  Z.min (px (l_start l)) (px (l_end l)) <= px q <= Z.max (px (l_start l)) (px (l_end l)) ->
   In q (line_points l).
 Proof.
-  intros Hy Hx Hc Hry Hrx. destruct (Z.eq_dec (ldy l) 0) as [E|E].
-  - specialize (Hx E). replace q with (P (px q) (py (l_start l))).
-    + apply line_horizontal_pixels; try assumption. unfold ldx in *. lia.
+  intros Hy Hx Hc Hry. destruct (Z.eq_dec (ldy l) 0) as [E|E].
+  - destruct (Hx E) as [Hx1 Hx2]. replace q with (P (px q) (py (l_start l))).
+    + apply line_horizontal_pixels; assumption.
     + destruct q as [qx qy]. cbn [px py] in *. f_equal. unfold ldy in *. lia.
   - destruct (line_row_pixel l (py q) ltac:(lia) Hry) as (p & Hp & Hpy & Hpc).
     replace q with p; [assumption|].
@@ -593,3 +593,440 @@ Proof.
   intros Hok Hq. destruct (points_between_edge_pixels t q Hok Hq) as (a & b & Ha & Hb & Hab).
   apply fill_edges_in_bbox in Ha, Hb. apply contains_spec in Ha, Hb. apply contains_spec. cbn [px py] in *. lia.
 Qed.
+
+(* ---- the mathematical triangle ------------------------------------------------------------- *)
+
+(* (a - o) x (b - o) *)
+Definition cross (o a b : point) : Z := (px a - px o) * (py b - py o) - (py a - py o) * (px b - px o).
+
+(* q lies in the closed triangle: on the same side of (or on) all three directed edge lines.  For colinear
+   vertices this holds for every point of the line through them, which is why the degenerate statement
+   below also asks for the bounding box. *)
+Definition in_closed_tri (t : triangle) (q : point) : Prop :=
+  let d1 := cross (v1 t) (v2 t) q in
+  let d2 := cross (v2 t) (v3 t) q in
+  let d3 := cross (v3 t) (v1 t) q in
+  (0 <= d1 /\ 0 <= d2 /\ 0 <= d3) \/ (d1 <= 0 /\ d2 <= 0 /\ d3 <= 0).
+
+Lemma in_closed_tri_perm t u q : perm3 t u -> in_closed_tri t q -> in_closed_tri u q.
+Proof.
+  destr_tri t. destruct q as [qx qy]. unfold perm3, in_closed_tri, cross. cbn [v1 v2 v3]. intros H.
+  perm_cases H; cbn [v1 v2 v3 px py]; lia.
+Qed.
+
+Lemma area_is_cross t : area_doubled t = cross (v1 t) (v2 t) (v3 t).
+Proof. destr_tri t. unfold area_doubled, cross. cbn [v1 v2 v3 px py]. lia. Qed.
+
+Lemma cross_sum t q :
+  cross (v1 t) (v2 t) q + cross (v2 t) (v3 t) q + cross (v3 t) (v1 t) q = area_doubled t.
+Proof. destr_tri t. destruct q as [qx qy]. unfold area_doubled, cross. cbn [v1 v2 v3 px py]. lia. Qed.
+
+(* barycentric coordinates: area * q = d2 * v1 + d3 * v2 + d1 * v3 *)
+Lemma bary_x t q :
+  area_doubled t * px q =
+  cross (v2 t) (v3 t) q * px (v1 t) + cross (v3 t) (v1 t) q * px (v2 t) + cross (v1 t) (v2 t) q * px (v3 t).
+Proof. destr_tri t. destruct q as [qx qy]. unfold area_doubled, cross. cbn [v1 v2 v3 px py]. lia. Qed.
+
+Lemma bary_y t q :
+  area_doubled t * py q =
+  cross (v2 t) (v3 t) q * py (v1 t) + cross (v3 t) (v1 t) q * py (v2 t) + cross (v1 t) (v2 t) q * py (v3 t).
+Proof. destr_tri t. destruct q as [qx qy]. unfold area_doubled, cross. cbn [v1 v2 v3 px py]. lia. Qed.
+
+Lemma bary_bounds d1 d2 d3 a b c q lo hi :
+  0 <= d1 -> 0 <= d2 -> 0 <= d3 -> 0 < d1 + d2 + d3 ->
+  (d1 + d2 + d3) * q = d2 * a + d3 * b + d1 * c ->
+  lo <= a <= hi -> lo <= b <= hi -> lo <= c <= hi -> lo <= q <= hi.
+Proof.
+  intros H1 H2 H3 Hs E Ha Hb Hc.
+  assert (A1 : d2 * lo <= d2 * a <= d2 * hi) by nia.
+  assert (A2 : d3 * lo <= d3 * b <= d3 * hi) by nia.
+  assert (A3 : d1 * lo <= d1 * c <= d1 * hi) by nia.
+  assert (L1 : (d1 + d2 + d3) * lo <= (d1 + d2 + d3) * q) by lia.
+  assert (L2 : (d1 + d2 + d3) * q <= (d1 + d2 + d3) * hi) by lia.
+  split; nia.
+Qed.
+
+(* a point of the closed triangle with non-zero area lies in the bounding box *)
+Lemma closed_tri_in_bbox t q : area_doubled t <> 0 -> in_closed_tri t q ->
+  contains (tri_bounding_box t) q = true.
+Proof.
+  intros Ha Hin. pose proof (cross_sum t q) as S. pose proof (bary_x t q) as BX. pose proof (bary_y t q) as BY.
+  unfold in_closed_tri in Hin. cbv zeta in Hin.
+  set (d1 := cross (v1 t) (v2 t) q) in *. set (d2 := cross (v2 t) (v3 t) q) in *. set (d3 := cross (v3 t) (v1 t) q) in *.
+  clearbody d1 d2 d3. rewrite <- S in *. clear S.
+  apply contains_spec. destr_tri t. destruct q as [qx qy].
+  unfold tri_bounding_box, with_corners, size_from_bounding_box. cbn [v1 v2 v3 px py tl sz sw sh] in *.
+  set (xlo := Z.min (Z.min ax bx) cx). set (xhi := Z.max (Z.max ax bx) cx).
+  set (ylo := Z.min (Z.min ay by_) cy). set (yhi := Z.max (Z.max ay by_) cy).
+  assert (X : xlo <= qx <= xhi).
+  { destruct Hin as [(H1 & H2 & H3) | (H1 & H2 & H3)].
+    - apply (bary_bounds d1 d2 d3 ax bx cx); try assumption; unfold xlo, xhi; lia.
+    - apply (bary_bounds (-d1) (-d2) (-d3) ax bx cx); try lia; unfold xlo, xhi; lia. }
+  assert (Y : ylo <= qy <= yhi).
+  { destruct Hin as [(H1 & H2 & H3) | (H1 & H2 & H3)].
+    - apply (bary_bounds d1 d2 d3 ay by_ cy); try assumption; unfold ylo, yhi; lia.
+    - apply (bary_bounds (-d1) (-d2) (-d3) ay by_ cy); try lia; unfold ylo, yhi; lia. }
+  unfold xlo, xhi, ylo, yhi in *. lia.
+Qed.
+
+(* ---- one edge: a pixel of the row on the required side ---------------------------------------- *)
+Lemma edge_pixel_left l q :
+  0 < ldy l -> py (l_start l) <= py q <= py (l_end l) -> 0 <= cross_to l q ->
+  exists p, In p (line_points l) /\ py p = py q /\ px p <= px q.
+Proof.
+  intros Hy Hr Hc. destruct (line_row_pixel l (py q) Hy Hr) as (p & Hp & Hpy & Hpc).
+  exists p. split; [assumption|]. split; [assumption|].
+  unfold cross_to in *. rewrite Hpy in Hpc.
+  set (dy := ldy l) in *. set (dx := ldx l) in *. set (sx := px (l_start l)) in *. set (sy := py (l_start l)) in *.
+  clearbody dy dx sx sy.
+  assert (D : (px p - sx) * dy - (py q - sy) * dx = ((px q - sx) * dy - (py q - sy) * dx) + (px p - px q) * dy) by lia.
+  rewrite D in Hpc. nia.
+Qed.
+
+Lemma edge_pixel_right l q :
+  0 < ldy l -> py (l_start l) <= py q <= py (l_end l) -> cross_to l q <= 0 ->
+  exists p, In p (line_points l) /\ py p = py q /\ px q <= px p.
+Proof.
+  intros Hy Hr Hc. destruct (line_row_pixel l (py q) Hy Hr) as (p & Hp & Hpy & Hpc).
+  exists p. split; [assumption|]. split; [assumption|].
+  unfold cross_to in *. rewrite Hpy in Hpc.
+  set (dy := ldy l) in *. set (dx := ldx l) in *. set (sx := px (l_start l)) in *. set (sy := py (l_start l)) in *.
+  clearbody dy dx sx sy.
+  assert (D : (px p - sx) * dy - (py q - sy) * dx = ((px q - sx) * dy - (py q - sy) * dx) + (px p - px q) * dy) by lia.
+  rewrite D in Hpc. nia.
+Qed.
+
+Lemma cross_to_cross a b q : cross_to (L a b) q = - cross a b q.
+Proof. unfold cross_to, cross, ldx, ldy. cbn [l_start l_end]. lia. Qed.
+
+Lemma cross_to_cross_rev a b q : cross_to (L a b) q = cross b a q.
+Proof. unfold cross_to, cross, ldx, ldy. cbn [l_start l_end]. lia. Qed.
+
+Lemma flat_sorted_zero_area s : sorted3 s -> py (v1 s) = py (v3 s) -> area_doubled s = 0.
+Proof.
+  destr_tri s. unfold sorted3, le_yx, area_doubled. cbn [v1 v2 v3 px py]. intros H E.
+  assert (ay = by_) by lia. assert (by_ = cy) by lia. subst. lia.
+Qed.
+
+(* tri_covers_interior (DESIGN C19), triangles with non-zero area: every lattice point of the closed
+   mathematical triangle is yielded by points() *)
+Theorem covers_interior_nondeg t q : tri_ok t -> area_doubled t <> 0 -> in_closed_tri t q -> In q (tri_points t).
+Proof.
+  intros Hok Ha Hin.
+  pose proof (closed_tri_in_bbox t q Ha Hin) as Hbb. apply contains_spec in Hbb.
+  pose proof (sorted_bbox_coords t) as B. cbv zeta in B. destruct B as (_ & _ & B1 & B2).
+  destruct (sorted_yx_spec t) as [Hp Hs].
+  pose proof (in_closed_tri_perm _ _ q Hp Hin) as Hin'.
+  assert (Ha' : area_doubled (sorted_yx t) <> 0).
+  { pose proof (area_doubled_perm _ _ Hp). lia. }
+  pose proof (sorted_ys t) as Hys. cbv zeta in Hys.
+  assert (Hlong : py (v1 (sorted_yx t)) < py (v3 (sorted_yx t))).
+  { destruct (Z.eq_dec (py (v1 (sorted_yx t))) (py (v3 (sorted_yx t)))) as [E|E]; [|lia].
+    exfalso. apply Ha'. apply flat_sorted_zero_area; assumption. }
+  assert (Hrow : py (v1 (sorted_yx t)) <= py q <= py (v3 (sorted_yx t))) by lia.
+  apply In_tri_points; [assumption|]. split; [assumption|].
+  assert (Hedges : forall p, In p (line_points (L (v1 (sorted_yx t)) (v2 (sorted_yx t)))) \/
+                             In p (line_points (L (v1 (sorted_yx t)) (v3 (sorted_yx t)))) \/
+                             In p (line_points (L (v2 (sorted_yx t)) (v3 (sorted_yx t)))) ->
+                             In p (tri_fill_edges t)).
+  { intros p H. unfold tri_fill_edges, tri_edge_points.
+    assert (E : (area_doubled t =? 0) = false) by lia. rewrite E. rewrite !in_app_iff. tauto. }
+  unfold in_closed_tri in Hin'. cbv zeta in Hin'.
+  set (p1 := v1 (sorted_yx t)) in *. set (p2 := v2 (sorted_yx t)) in *. set (p3 := v3 (sorted_yx t)) in *.
+  clear B1 B2 Hbb Hin Ha Ha' Hp Hs.
+  (* the long edge p1-p3 bounds every row on one side *)
+  assert (L13 : 0 < ldy (L p1 p3)) by (unfold ldy; cbn [l_start l_end]; lia).
+  assert (R13 : py (l_start (L p1 p3)) <= py q <= py (l_end (L p1 p3))) by (cbn [l_start l_end]; lia).
+  pose proof (cross_to_cross_rev p1 p3 q) as C13.
+  assert (Hcase : (py q <= py p2 /\ py p1 < py p2) \/ (py p2 <= py q /\ py p2 < py p3)) by lia.
+  destruct Hcase as [[Hq H12] | [Hq H23]].
+  - (* upper part: edges p1-p2 and p1-p3 *)
+    assert (L12 : 0 < ldy (L p1 p2)) by (unfold ldy; cbn [l_start l_end]; lia).
+    assert (R12 : py (l_start (L p1 p2)) <= py q <= py (l_end (L p1 p2))) by (cbn [l_start l_end]; lia).
+    pose proof (cross_to_cross p1 p2 q) as C12.
+    destruct Hin' as [(D1 & D2 & D3) | (D1 & D2 & D3)].
+    + destruct (edge_pixel_left (L p1 p3) q L13 R13 ltac:(lia)) as (pl & Hl & Hly & Hlx).
+      destruct (edge_pixel_right (L p1 p2) q L12 R12 ltac:(lia)) as (pr & Hr & Hry & Hrx).
+      apply (tri_scanline_covers t (px pl) (px pr)); [| |lia].
+      * apply Hedges. destruct pl as [x y]. cbn [px py] in *. subst y. auto.
+      * apply Hedges. destruct pr as [x y]. cbn [px py] in *. subst y. auto.
+    + destruct (edge_pixel_left (L p1 p2) q L12 R12 ltac:(lia)) as (pl & Hl & Hly & Hlx).
+      destruct (edge_pixel_right (L p1 p3) q L13 R13 ltac:(lia)) as (pr & Hr & Hry & Hrx).
+      apply (tri_scanline_covers t (px pl) (px pr)); [| |lia].
+      * apply Hedges. destruct pl as [x y]. cbn [px py] in *. subst y. auto.
+      * apply Hedges. destruct pr as [x y]. cbn [px py] in *. subst y. auto.
+  - (* lower part: edges p2-p3 and p1-p3 *)
+    assert (L23 : 0 < ldy (L p2 p3)) by (unfold ldy; cbn [l_start l_end]; lia).
+    assert (R23 : py (l_start (L p2 p3)) <= py q <= py (l_end (L p2 p3))) by (cbn [l_start l_end]; lia).
+    pose proof (cross_to_cross p2 p3 q) as C23.
+    destruct Hin' as [(D1 & D2 & D3) | (D1 & D2 & D3)].
+    + destruct (edge_pixel_left (L p1 p3) q L13 R13 ltac:(lia)) as (pl & Hl & Hly & Hlx).
+      destruct (edge_pixel_right (L p2 p3) q L23 R23 ltac:(lia)) as (pr & Hr & Hry & Hrx).
+      apply (tri_scanline_covers t (px pl) (px pr)); [| |lia].
+      * apply Hedges. destruct pl as [x y]. cbn [px py] in *. subst y. auto.
+      * apply Hedges. destruct pr as [x y]. cbn [px py] in *. subst y. auto.
+    + destruct (edge_pixel_left (L p2 p3) q L23 R23 ltac:(lia)) as (pl & Hl & Hly & Hlx).
+      destruct (edge_pixel_right (L p1 p3) q L13 R13 ltac:(lia)) as (pr & Hr & Hry & Hrx).
+      apply (tri_scanline_covers t (px pl) (px pr)); [| |lia].
+      * apply Hedges. destruct pl as [x y]. cbn [px py] in *. subst y. auto.
+      * apply Hedges. destruct pr as [x y]. cbn [px py] in *. subst y. auto.
+Qed.
+
+(* tri_covers_interior, colinear vertices: the closed "triangle" is the segment between the extreme vertices
+   (points of the line through them inside the bounding box); every lattice point on it is yielded *)
+Theorem covers_interior_deg t q : tri_ok t -> area_doubled t = 0 ->
+  in_closed_tri t q -> contains (tri_bounding_box t) q = true -> In q (tri_points t).
+Proof.
+  intros Hok Ha Hin Hbb. apply fill_edges_in_points; [assumption|]. apply long_edge_in_fill_edges.
+  apply contains_spec in Hbb.
+  pose proof (sorted_bbox_coords t) as B. cbv zeta in B. destruct B as (B1 & B2 & B3 & B4).
+  destruct (sorted_yx_spec t) as [Hp Hs].
+  pose proof (in_closed_tri_perm _ _ q Hp Hin) as Hin'.
+  assert (Ha' : area_doubled (sorted_yx t) = 0).
+  { pose proof (area_doubled_perm _ _ Hp). lia. }
+  pose proof (cross_sum (sorted_yx t) q) as S. rewrite Ha' in S.
+  unfold in_closed_tri in Hin'. cbv zeta in Hin'.
+  pose proof (cross_to_cross_rev (v1 (sorted_yx t)) (v3 (sorted_yx t)) q) as C13.
+  unfold sorted3, le_yx in Hs.
+  set (p1 := v1 (sorted_yx t)) in *. set (p2 := v2 (sorted_yx t)) in *. set (p3 := v3 (sorted_yx t)) in *.
+  apply line_exact_point; unfold ldy, ldx; cbn [l_start l_end]; try lia.
+Qed.
+
+(* both statements together *)
+Theorem covers_interior t q : tri_ok t ->
+  in_closed_tri t q -> contains (tri_bounding_box t) q = true -> In q (tri_points t).
+Proof.
+  intros Hok Hin Hbb. destruct (Z.eq_dec (area_doubled t) 0) as [E|E].
+  - apply covers_interior_deg; assumption.
+  - apply covers_interior_nondeg; assumption.
+Qed.
+
+(* ---- shared edges ------------------------------------------------------------------------------ *)
+
+(* the line the triangle code rasterises between two vertices: from the (y,x)-smaller to the larger one *)
+Definition sorted_edge (a b : point) : line := let '(lo, hi) := sort_two_yx a b in L lo hi.
+
+Lemma sorted_edge_sym a b : sorted_edge a b = sorted_edge b a.
+Proof.
+  destruct a as [ax ay], b as [bx by_]. unfold sorted_edge, sort_two_yx. cbn [px py].
+  destruct ((ay <? by_) || (ay =? by_) && (ax <? bx)) eqn:E1;
+    destruct ((by_ <? ay) || (by_ =? ay) && (bx <? ax)) eqn:E2; try reflexivity; repeat f_equal; lia.
+Qed.
+
+(* the sorted edge between the first two vertices is one of the three lines of sorted_yx *)
+Lemma sorted_edge_12 u :
+  let st := sorted_yx u in
+  sorted_edge (v1 u) (v2 u) = L (v1 st) (v2 st) \/ sorted_edge (v1 u) (v2 u) = L (v1 st) (v3 st) \/
+  sorted_edge (v1 u) (v2 u) = L (v2 st) (v3 st).
+Proof.
+  destr_tri u. unfold sorted_edge, sorted_yx, sort_two_yx. cbn [v1 v2 v3 px py].
+  repeat (match goal with |- context [if ?c then _ else _] => destruct c eqn:? end;
+          cbv beta iota zeta; cbn [v1 v2 v3 px py]).
+  all: first [ left; solve [repeat f_equal; lia] | right; left; solve [repeat f_equal; lia]
+             | right; right; solve [repeat f_equal; lia] ].
+Qed.
+
+Lemma sorted_edge_in_fill_edges t u p : perm3 t u -> area_doubled t <> 0 ->
+  In p (line_points (sorted_edge (v1 u) (v2 u))) -> In p (tri_fill_edges t).
+Proof.
+  intros Hp Ha H. unfold tri_fill_edges, tri_edge_points.
+  assert (E : (area_doubled t =? 0) = false) by lia. rewrite E.
+  rewrite <- (sorted_yx_perm t u Hp). pose proof (sorted_edge_12 u) as S. cbv zeta in S.
+  rewrite !in_app_iff. destruct S as [S|[S|S]]; rewrite S in H; tauto.
+Qed.
+
+(* shared_edge_same_pixels (DESIGN C19): both triangles on an edge a-b contain the same Bresenham line *)
+Theorem shared_edge_same_pixels a b c d p :
+  tri_ok (T a b c) -> tri_ok (T a b d) -> area_doubled (T a b c) <> 0 -> area_doubled (T a b d) <> 0 ->
+  In p (line_points (sorted_edge a b)) -> In p (tri_points (T a b c)) /\ In p (tri_points (T a b d)).
+Proof.
+  intros O1 O2 A1 A2 H. split; (apply fill_edges_in_points; [assumption|]).
+  - apply (sorted_edge_in_fill_edges (T a b c) (T a b c)); [apply perm3_refl | assumption | exact H].
+  - apply (sorted_edge_in_fill_edges (T a b d) (T a b d)); [apply perm3_refl | assumption | exact H].
+Qed.
+
+(* shared_edge_no_gap (DESIGN C19): every lattice point of the union of the two closed triangles is covered *)
+Theorem shared_edge_no_gap a b c d q :
+  tri_ok (T a b c) -> tri_ok (T a b d) -> area_doubled (T a b c) <> 0 -> area_doubled (T a b d) <> 0 ->
+  in_closed_tri (T a b c) q \/ in_closed_tri (T a b d) q ->
+  In q (tri_points (T a b c)) \/ In q (tri_points (T a b d)).
+Proof.
+  intros O1 O2 A1 A2 [H|H]; [left|right]; apply covers_interior_nondeg; assumption.
+Qed.
+
+(* ---- row-major order, each point once ---------------------------------------------------------------- *)
+Definition lt_yx (a b : point) : Prop := py a < py b \/ (py a = py b /\ px a < px b).
+
+Lemma StronglySorted_app {A} (R : A -> A -> Prop) l1 l2 :
+  StronglySorted R l1 -> StronglySorted R l2 -> (forall a b, In a l1 -> In b l2 -> R a b) ->
+  StronglySorted R (l1 ++ l2).
+Proof.
+  induction l1 as [|x l1 IH]; intros H1 H2 H; [assumption|]. cbn [app].
+  inversion H1 as [|? ? H1' Hx]; subst. constructor.
+  - apply IH; [assumption | assumption |]. intros a b Ha Hb. apply H; [right; assumption | assumption].
+  - apply Forall_forall. intros z Hz. apply in_app_iff in Hz. destruct Hz as [Hz|Hz].
+    + rewrite Forall_forall in Hx. apply Hx. assumption.
+    + apply H; [left; reflexivity | assumption].
+Qed.
+
+Lemma sl_points_sorted s : StronglySorted lt_yx (sl_points s).
+Proof.
+  unfold sl_points. pose proof (range_sorted (sl_start s) (sl_end s)) as H.
+  induction H as [|x l Hs IH Hx]; cbn [map]; constructor; [assumption|].
+  apply Forall_forall. intros p Hp. apply in_map_iff in Hp. destruct Hp as (z & <- & Hz).
+  rewrite Forall_forall in Hx. specialize (Hx z Hz). right. cbn [px py]. lia.
+Qed.
+
+Lemma flat_map_rows_sorted (f : Z -> scanline) ys :
+  StronglySorted Z.lt ys -> (forall y, sl_y (f y) = y) ->
+  StronglySorted lt_yx (flat_map sl_points (map f ys)).
+Proof.
+  intros Hs Hy. induction Hs as [|y l Hs IH Hl]; cbn [map flat_map]; [constructor|].
+  apply StronglySorted_app; [apply sl_points_sorted | assumption |].
+  intros a b Ha Hb. apply In_sl_points in Ha. rewrite Hy in Ha.
+  apply in_flat_map in Hb. destruct Hb as (s & Hs' & Hb). apply in_map_iff in Hs'. destruct Hs' as (z & <- & Hz).
+  apply In_sl_points in Hb. rewrite Hy in Hb. rewrite Forall_forall in Hl. specialize (Hl z Hz).
+  left. lia.
+Qed.
+
+(* points() is strictly increasing in (y, x): row-major order, no point twice *)
+Theorem tri_points_row_major t : tri_ok t -> StronglySorted lt_yx (tri_points t).
+Proof.
+  intros Hok. unfold tri_points. rewrite tri_scanlines_all by assumption.
+  apply flat_map_rows_sorted; [apply range_sorted | apply tri_scanline_y].
+Qed.
+
+Lemma sorted_lt_NoDup (l : list point) : StronglySorted lt_yx l -> NoDup l.
+Proof.
+  induction 1 as [|x l Hs IH Hx]; constructor; [|assumption].
+  intros Hin. rewrite Forall_forall in Hx. specialize (Hx x Hin). unfold lt_yx in Hx. lia.
+Qed.
+
+Theorem tri_points_NoDup t : tri_ok t -> NoDup (tri_points t).
+Proof. intros H. apply sorted_lt_NoDup, tri_points_row_major, H. Qed.
+
+(* ======================================================================== *)
+(* 5. Triangle::contains()                                                   *)
+(* ======================================================================== *)
+
+Theorem tri_contains_in_bbox t p : tri_contains t p = true -> contains (tri_bounding_box t) p = true.
+Proof. unfold tri_contains. destruct (contains (tri_bounding_box t) p); [reflexivity | discriminate]. Qed.
+
+(* s = d3, t = d1, a - s - t = d2 *)
+Lemma is_inside_closed t p : tri_is_inside t p = Some true -> in_closed_tri t p.
+Proof.
+  unfold tri_is_inside, in_closed_tri. pose proof (cross_sum t p) as S.
+  destr_tri t. destruct p as [qx qy]. unfold cross, area_doubled in *. cbn [v1 v2 v3 px py] in *.
+  cbv zeta.
+  repeat match goal with |- context [if ?c then _ else _] => destruct c eqn:? end; try discriminate.
+  all: intros H; injection H as H; lia.
+Qed.
+
+Lemma In_existsb_point p l : existsb (fun lp => point_eqb lp p) l = true -> In p l.
+Proof.
+  intros H. apply existsb_exists in H. destruct H as (x & Hx & E). unfold point_eqb in E.
+  destruct x as [a b], p as [c d]. cbn [px py] in E. assert (a = c) by lia. assert (b = d) by lia. subst. assumption.
+Qed.
+
+(* C05, triangle, superset direction: every point accepted by contains() is yielded by points() *)
+Theorem contains_in_points t p : tri_ok t -> area_doubled t <> 0 -> tri_contains t p = true -> In p (tri_points t).
+Proof.
+  intros Hok Ha H. unfold tri_contains in H.
+  destruct (contains (tri_bounding_box t) p) eqn:Hbb; cbn [negb] in H; [|discriminate].
+  destruct (tri_is_inside t p) as [[|]|] eqn:Hi; [| |discriminate].
+  - apply covers_interior_nondeg; [assumption | assumption |]. apply is_inside_closed. assumption.
+  - apply fill_edges_in_points; [assumption|]. unfold tri_fill_edges.
+    assert (E : (area_doubled t =? 0) = false) by lia. rewrite E. apply In_existsb_point. assumption.
+Qed.
+
+(* ---- what contains() accepts, exactly ------------------------------------------------------------ *)
+
+Lemma is_inside_none t p : tri_is_inside t p = None -> area_doubled t = 0.
+Proof.
+  unfold tri_is_inside. cbv zeta.
+  repeat match goal with |- context [if ?c then _ else _] => destruct c eqn:? end; try discriminate. lia.
+Qed.
+
+(* without the sign pre-test the barycentric test is exactly the closed triangle; the pre-test
+   `(s < 0) != (t < 0)` additionally rejects points ON the edge v3v1 or v1v2 of a counter-clockwise triangle *)
+Lemma closed_is_inside t p : area_doubled t <> 0 -> in_closed_tri t p ->
+  tri_is_inside t p = Some true \/
+  (tri_is_inside t p = Some false /\ (cross (v3 t) (v1 t) p = 0 \/ cross (v1 t) (v2 t) p = 0)).
+Proof.
+  unfold tri_is_inside, in_closed_tri. pose proof (cross_sum t p) as S.
+  destr_tri t. destruct p as [qx qy]. unfold cross, area_doubled in *. cbn [v1 v2 v3 px py] in *.
+  cbv zeta. intros Ha Hin.
+  repeat match goal with |- context [if ?c then _ else _] => destruct c eqn:? end.
+  all: first [ left; f_equal; lia | right; split; [reflexivity | lia] | exfalso; lia ].
+Qed.
+
+(* a lattice point of the closed triangle that lies on the line through v1 and v2 is a Bresenham pixel of the
+   sorted edge between them *)
+Lemma on_edge_in_sorted_edge u p : area_doubled u <> 0 -> in_closed_tri u p ->
+  cross (v1 u) (v2 u) p = 0 -> In p (line_points (sorted_edge (v1 u) (v2 u))).
+Proof.
+  intros Ha Hin H0. pose proof (cross_sum u p) as S. pose proof (bary_x u p) as BX. pose proof (bary_y u p) as BY.
+  unfold in_closed_tri in Hin. cbv zeta in Hin. rewrite H0 in *.
+  set (d2 := cross (v2 u) (v3 u) p) in *. set (d3 := cross (v3 u) (v1 u) p) in *.
+  assert (HX : Z.min (px (v1 u)) (px (v2 u)) <= px p <= Z.max (px (v1 u)) (px (v2 u))).
+  { destruct Hin as [(_ & H2 & H3) | (_ & H2 & H3)].
+    - apply (bary_bounds 0 d2 d3 (px (v1 u)) (px (v2 u)) (px (v1 u))); try lia.
+    - apply (bary_bounds 0 (-d2) (-d3) (px (v1 u)) (px (v2 u)) (px (v1 u))); try lia. }
+  assert (HY : Z.min (py (v1 u)) (py (v2 u)) <= py p <= Z.max (py (v1 u)) (py (v2 u))).
+  { destruct Hin as [(_ & H2 & H3) | (_ & H2 & H3)].
+    - apply (bary_bounds 0 d2 d3 (py (v1 u)) (py (v2 u)) (py (v1 u))); try lia.
+    - apply (bary_bounds 0 (-d2) (-d3) (py (v1 u)) (py (v2 u)) (py (v1 u))); try lia. }
+  clear S BX BY Hin Ha. clearbody d2 d3. clear d2 d3.
+  unfold cross in H0. destr_tri u. destruct p as [qx qy]. cbn [v1 v2 v3 px py] in *.
+  unfold sorted_edge, sort_two_yx. cbn [px py].
+  destruct ((ay <? by_) || (ay =? by_) && (ax <? bx)) eqn:E;
+    apply line_exact_point; unfold cross_to, ldy, ldx; cbn [l_start l_end px py]; lia.
+Qed.
+
+Lemma existsb_point_In p l : In p l -> existsb (fun lp => point_eqb lp p) l = true.
+Proof.
+  intros H. apply existsb_exists. exists p. split; [assumption|]. unfold point_eqb. lia.
+Qed.
+
+Theorem tri_contains_spec t p : tri_ok t -> area_doubled t <> 0 ->
+  (tri_contains t p = true <-> in_closed_tri t p \/ In p (tri_fill_edges t)).
+Proof.
+  intros Hok Ha.
+  assert (Efill : tri_fill_edges t = tri_edge_points t).
+  { unfold tri_fill_edges. assert (E : (area_doubled t =? 0) = false) by lia. rewrite E. reflexivity. }
+  split.
+  - intros H. unfold tri_contains in H.
+    destruct (contains (tri_bounding_box t) p) eqn:Hbb; cbn [negb] in H; [|discriminate].
+    destruct (tri_is_inside t p) as [[|]|] eqn:Hi; [| |discriminate].
+    + left. apply is_inside_closed. assumption.
+    + right. rewrite Efill. apply In_existsb_point. assumption.
+  - intros H.
+    assert (Hedge : In p (tri_fill_edges t) -> tri_contains t p = true).
+    { intros He. unfold tri_contains. rewrite (fill_edges_in_bbox t p He). cbn [negb].
+      destruct (tri_is_inside t p) as [[|]|] eqn:Hi; [reflexivity | |].
+      - rewrite <- Efill. apply existsb_point_In. assumption.
+      - exfalso. apply Ha. eapply is_inside_none. eassumption. }
+    destruct H as [Hin | He]; [|apply Hedge; assumption].
+    destruct (closed_is_inside t p Ha Hin) as [Hi | [Hi [H0 | H0]]].
+    + unfold tri_contains. rewrite (closed_tri_in_bbox t p Ha Hin). cbn [negb]. rewrite Hi. reflexivity.
+    + (* on the line v3-v1 *)
+      apply Hedge. destruct t as [a b c]. cbn [v1 v2 v3] in *.
+      assert (Hp : perm3 (T a b c) (T c a b)) by (unfold perm3; cbn [v1 v2 v3]; pick_refl).
+      apply (sorted_edge_in_fill_edges (T a b c) (T c a b)); [assumption | assumption |]. cbn [v1 v2].
+      apply (on_edge_in_sorted_edge (T c a b)); cbn [v1 v2 v3].
+      * pose proof (area_doubled_perm _ _ Hp). lia.
+      * apply (in_closed_tri_perm _ _ p Hp). assumption.
+      * assumption.
+    + (* on the line v1-v2 *)
+      apply Hedge. apply (sorted_edge_in_fill_edges t t); [apply perm3_refl | assumption |].
+      apply on_edge_in_sorted_edge; assumption.
+Qed.
+
+(* OPEN (C05 triangle, subset direction; C19 tri_within_one_pixel):
+     forall t q, tri_ok t -> area_doubled t <> 0 -> In q (tri_points t) -> tri_contains t q = true.
+   By tri_contains_spec and points_between_edge_pixels this is equivalent to the purely geometric statement
+     "a lattice point that lies in its row between two Bresenham pixels of the sorted edges is in the closed
+      triangle or is itself such a pixel",
+   which needs, per row, that the pixels of one edge form a run that reaches from the edge's ideal crossing to the
+   pixel farthest outside - a case analysis over steep/shallow edges and the three vertex rows that is not done.
+   Compared exhaustively (7x7 grid, all vertex triples) and at random by the suites p_tri_c05 / p_tri. *)
